@@ -813,6 +813,463 @@ fn program_cases(args: &util::Args, out: &mut String, stats: &mut String) {
     let _ = writeln!(stats, "templates={} dictionary={} witnesses={} corpus={}", TEMPLATES.len(), dict.len(), WITNESSES.len(), n_corpus);
 }
 
+
+// ------------------------------------------------------------------ part C: instance-name collision hunt (`gv c19inst`)
+//
+// Pairs of DISTINCT types chosen to coincide under plausible lossy spellings.  One program per pair
+// instantiates ONE generic struct, ONE generic enum and ONE generic function at both types, with a
+// different observable result per instance.  Written in the C01 row format (SRC / STAGE core / STAGE go),
+// plus an `INST` row: the instance names the REAL mono pass produced (monoenv tables, MonoFile).
+
+/// a type usable as a type argument: goml text, a value, and the body of `fn show(v: T) -> string`
+struct Arg {
+    ty: &'static str,
+    value: &'static str,
+    show: &'static str,
+}
+
+struct PairCase {
+    family: &'static str,
+    id: &'static str,
+    /// extra declarations the two types need
+    decls: &'static str,
+    a: Arg,
+    b: Arg,
+    /// consistent renaming of user identifiers that must not change the outcome
+    rename: &'static [(&'static str, &'static str)],
+}
+
+const I4: &str = "int32_to_string(a * 1000 + b * 100 + c * 10 + d)";
+
+fn pair_cases() -> Vec<PairCase> {
+    vec![
+        PairCase {
+            family: "tuple-grouping",
+            id: "nest-2-1-1_vs_3-1",
+            decls: "",
+            a: Arg { ty: "((int32, int32), int32, int32)", value: "((1, 2), 3, 4)", show: "let (p, c, d) = v; let (a, b) = p; \"L\" + int32_to_string(a * 1000 + b * 100 + c * 10 + d)" },
+            b: Arg { ty: "((int32, int32, int32), int32)", value: "((5, 6, 7), 8)", show: "let (p, d) = v; let (a, b, c) = p; \"R\" + int32_to_string(a * 1000 + b * 100 + c * 10 + d)" },
+            rename: &[],
+        },
+        PairCase {
+            family: "tuple-grouping",
+            id: "left-nested_vs_right-nested",
+            decls: "",
+            a: Arg { ty: "((int32, int32), int32)", value: "((1, 2), 3)", show: "let (p, c) = v; let (a, b) = p; \"L\" + int32_to_string(a * 100 + b * 10 + c)" },
+            b: Arg { ty: "(int32, (int32, int32))", value: "(4, (5, 6))", show: "let (a, p) = v; let (b, c) = p; \"R\" + int32_to_string(a * 100 + b * 10 + c)" },
+            rename: &[],
+        },
+        PairCase {
+            family: "tuple-grouping",
+            id: "flat-3_vs_nested-2-1",
+            decls: "",
+            a: Arg { ty: "(int32, int32, int32)", value: "(1, 2, 3)", show: "let (a, b, c) = v; \"F\" + int32_to_string(a * 100 + b * 10 + c)" },
+            b: Arg { ty: "((int32, int32), int32)", value: "((4, 5), 6)", show: "let (p, c) = v; let (a, b) = p; \"N\" + int32_to_string(a * 100 + b * 10 + c)" },
+            rename: &[],
+        },
+        PairCase {
+            family: "tuple-grouping",
+            id: "mixed-leaves-regrouped",
+            decls: "",
+            a: Arg { ty: "((string, int32), (bool, int32))", value: "((\"s\", 1), (true, 2))", show: "let (p, q) = v; let (s, a) = p; let (t, b) = q; \"L\" + s + int32_to_string(a * 10 + b) + bool_to_string(t)" },
+            b: Arg { ty: "(string, (int32, bool), int32)", value: "(\"t\", (3, false), 4)", show: "let (s, q, b) = v; let (a, t) = q; \"R\" + s + int32_to_string(a * 10 + b) + bool_to_string(t)" },
+            rename: &[],
+        },
+        PairCase {
+            family: "generic-application-vs-underscore-name",
+            id: "Pair[int32]_vs_Pair_int32",
+            decls: "struct Pair[T] { p: T }\nstruct Pair_int32 { q: int32 }\n",
+            a: Arg { ty: "Pair[int32]", value: "Pair { p: 1 }", show: "\"app\" + int32_to_string(v.p)" },
+            b: Arg { ty: "Pair_int32", value: "Pair_int32 { q: 2 }", show: "\"name\" + int32_to_string(v.q)" },
+            rename: &[("Pair_int32", "PairI")],
+        },
+        PairCase {
+            family: "generic-application-vs-underscore-name",
+            id: "Duo[Wrap[int32],int32]_vs_Duo[Wrap_int32,int32]",
+            decls: "struct Wrap[T] { w: T }\nstruct Wrap_int32 { z: int32 }\nstruct Two[X, Y] { x: X, y: Y }\n",
+            a: Arg { ty: "Two[Wrap[int32], int32]", value: "Two { x: Wrap { w: 1 }, y: 2 }", show: "\"app\" + int32_to_string(v.x.w * 10 + v.y)" },
+            b: Arg { ty: "Two[Wrap_int32, int32]", value: "Two { x: Wrap_int32 { z: 3 }, y: 4 }", show: "\"name\" + int32_to_string(v.x.z * 10 + v.y)" },
+            rename: &[("Wrap_int32", "WrapI")],
+        },
+        PairCase {
+            family: "nested-application-vs-flat-application",
+            id: "Two[Two[i,i],i]_vs_Three[i,i,i]-style",
+            decls: "struct Two[X, Y] { x: X, y: Y }\nstruct Two_int32_int32 { m: int32 }\n",
+            a: Arg { ty: "Two[Two[int32, int32], int32]", value: "Two { x: Two { x: 1, y: 2 }, y: 3 }", show: "\"nest\" + int32_to_string(v.x.x * 100 + v.x.y * 10 + v.y)" },
+            b: Arg { ty: "Two[Two_int32_int32, int32]", value: "Two { x: Two_int32_int32 { m: 4 }, y: 5 }", show: "\"flat\" + int32_to_string(v.x.m * 10 + v.y)" },
+            rename: &[("Two_int32_int32", "TwoII")],
+        },
+        PairCase {
+            family: "tuple-vs-underscore-name",
+            id: "(A_B,C)_vs_(A,B_C)",
+            decls: "struct A_B { a: int32 }\nstruct C { a: int32 }\nstruct A { a: int32 }\nstruct B_C { a: int32 }\n",
+            a: Arg { ty: "(A_B, C)", value: "(A_B { a: 1 }, C { a: 2 })", show: "let (x, y) = v; \"L\" + int32_to_string(x.a * 10 + y.a)" },
+            b: Arg { ty: "(A, B_C)", value: "(A { a: 3 }, B_C { a: 4 })", show: "let (x, y) = v; \"R\" + int32_to_string(x.a * 10 + y.a)" },
+            rename: &[("A_B", "Ab"), ("B_C", "Bc")],
+        },
+        PairCase {
+            family: "encoder-word-as-name",
+            id: "(int32,int32)_vs_Tuple_int32_int32",
+            decls: "struct Tuple_int32_int32 { t: int32 }\n",
+            a: Arg { ty: "(int32, int32)", value: "(1, 2)", show: "let (a, b) = v; \"tup\" + int32_to_string(a * 10 + b)" },
+            b: Arg { ty: "Tuple_int32_int32", value: "Tuple_int32_int32 { t: 3 }", show: "\"name\" + int32_to_string(v.t)" },
+            rename: &[("Tuple_int32_int32", "TupII")],
+        },
+        PairCase {
+            family: "encoder-word-as-name",
+            id: "Vec[int32]_vs_Vec_int32",
+            decls: "struct Vec_int32 { t: int32 }\n",
+            a: Arg { ty: "Vec[int32]", value: "vec_push(vec_new(), 7)", show: "\"vec\" + int32_to_string(vec_len(v) * 10 + vec_get(v, 0))" },
+            b: Arg { ty: "Vec_int32", value: "Vec_int32 { t: 3 }", show: "\"name\" + int32_to_string(v.t)" },
+            rename: &[("Vec_int32", "VecI")],
+        },
+        PairCase {
+            family: "encoder-word-as-name",
+            id: "Ref[int32]_vs_Ref_int32",
+            decls: "struct Ref_int32 { t: int32 }\n",
+            a: Arg { ty: "Ref[int32]", value: "ref(6)", show: "\"ref\" + int32_to_string(ref_get(v))" },
+            b: Arg { ty: "Ref_int32", value: "Ref_int32 { t: 3 }", show: "\"name\" + int32_to_string(v.t)" },
+            rename: &[("Ref_int32", "RefI")],
+        },
+        PairCase {
+            family: "encoder-word-as-name",
+            id: "[int32;3]_vs_Array_3_int32",
+            decls: "struct Array_3_int32 { t: int32 }\n",
+            a: Arg { ty: "[int32; 3]", value: "[1, 2, 3]", show: "\"arr\" + int32_to_string(array_get(v, 0) * 100 + array_get(v, 2))" },
+            b: Arg { ty: "Array_3_int32", value: "Array_3_int32 { t: 3 }", show: "\"name\" + int32_to_string(v.t)" },
+            rename: &[("Array_3_int32", "ArrI")],
+        },
+        PairCase {
+            family: "encoder-word-as-name",
+            id: "(int32)->int32_vs_Fn_int32_to_int32",
+            decls: "struct Fn_int32_to_int32 { t: int32 }\nfn succ(k: int32) -> int32 { k + 1 }\n",
+            a: Arg { ty: "(int32) -> int32", value: "succ", show: "\"fn\" + int32_to_string(v(41))" },
+            b: Arg { ty: "Fn_int32_to_int32", value: "Fn_int32_to_int32 { t: 3 }", show: "\"name\" + int32_to_string(v.t)" },
+            rename: &[("Fn_int32_to_int32", "FnII")],
+        },
+        PairCase {
+            family: "array-length-vs-digit-suffix",
+            id: "[A1;2]_vs_[A;12]",
+            decls: "struct A1 { a: int32 }\nstruct A { a: int32 }\n",
+            a: Arg { ty: "[A1; 2]", value: "[A1 { a: 1 }, A1 { a: 2 }]", show: "\"two\" + int32_to_string(array_get(v, 1).a)" },
+            b: Arg { ty: "[A; 12]", value: "[A { a: 1 }, A { a: 2 }, A { a: 3 }, A { a: 4 }, A { a: 5 }, A { a: 6 }, A { a: 7 }, A { a: 8 }, A { a: 9 }, A { a: 10 }, A { a: 11 }, A { a: 12 }]", show: "\"twelve\" + int32_to_string(array_get(v, 11).a)" },
+            rename: &[("A1", "Aone")],
+        },
+        PairCase {
+            family: "array-length-vs-digit-suffix",
+            id: "[[int32;2];3]_vs_[[int32;3];2]",
+            decls: "",
+            a: Arg { ty: "[[int32; 2]; 3]", value: "[[1, 2], [3, 4], [5, 6]]", show: "\"a\" + int32_to_string(array_get(array_get(v, 2), 1))" },
+            b: Arg { ty: "[[int32; 3]; 2]", value: "[[1, 2, 3], [4, 5, 6]]", show: "\"b\" + int32_to_string(array_get(array_get(v, 1), 2))" },
+            rename: &[],
+        },
+        PairCase {
+            family: "function-type-vs-tuple",
+            id: "(i,i)->i_vs_((i,i),i)",
+            decls: "fn add(a: int32, b: int32) -> int32 { a + b }\n",
+            a: Arg { ty: "(int32, int32) -> int32", value: "add", show: "\"fn\" + int32_to_string(v(20, 22))" },
+            b: Arg { ty: "((int32, int32), int32)", value: "((1, 2), 3)", show: "let (p, c) = v; let (a, b) = p; \"tup\" + int32_to_string(a * 100 + b * 10 + c)" },
+            rename: &[],
+        },
+        PairCase {
+            family: "function-type-vs-tuple",
+            id: "()->i_vs_(unit)->i",
+            decls: "fn zero() -> int32 { 10 }\nfn one(u: unit) -> int32 { 11 }\n",
+            a: Arg { ty: "() -> int32", value: "zero", show: "\"nullary\" + int32_to_string(v())" },
+            b: Arg { ty: "(unit) -> int32", value: "one", show: "\"unary\" + int32_to_string(v(()))" },
+            rename: &[],
+        },
+        PairCase {
+            family: "ref-vec-nesting",
+            id: "Ref[Vec[i]]_vs_Vec[Ref[i]]",
+            decls: "",
+            a: Arg { ty: "Ref[Vec[int32]]", value: "ref(vec_push(vec_new(), 1))", show: "\"rv\" + int32_to_string(vec_get(ref_get(v), 0))" },
+            b: Arg { ty: "Vec[Ref[int32]]", value: "vec_push(vec_new(), ref(2))", show: "\"vr\" + int32_to_string(ref_get(vec_get(v, 0)))" },
+            rename: &[],
+        },
+        PairCase {
+            family: "ref-vec-nesting",
+            id: "Ref[Ref[i]]_vs_Ref[i]",
+            decls: "",
+            a: Arg { ty: "Ref[Ref[int32]]", value: "ref(ref(1))", show: "\"rr\" + int32_to_string(ref_get(ref_get(v)))" },
+            b: Arg { ty: "Ref[int32]", value: "ref(2)", show: "\"r\" + int32_to_string(ref_get(v))" },
+            rename: &[],
+        },
+        PairCase {
+            family: "ref-vec-nesting",
+            id: "Ref[Foo]_vs_Ref[foo]",
+            decls: "struct Foo { a: int32 }\nstruct foo { a: int32 }\n",
+            a: Arg { ty: "Ref[Foo]", value: "ref(Foo { a: 1 })", show: "\"upper\" + int32_to_string(ref_get(v).a)" },
+            b: Arg { ty: "Ref[foo]", value: "ref(foo { a: 2 })", show: "\"lower\" + int32_to_string(ref_get(v).a + 40)" },
+            rename: &[("foo", "Bar")],
+        },
+        PairCase {
+            family: "enum-vs-struct-and-case",
+            id: "Opt2[int32]_vs_opt2[int32]",
+            decls: "struct Wr[T] { w: T }\nstruct wr[T] { w: T }\n",
+            a: Arg { ty: "Wr[int32]", value: "Wr { w: 1 }", show: "\"upper\" + int32_to_string(v.w)" },
+            b: Arg { ty: "wr[int32]", value: "wr { w: 2 }", show: "\"lower\" + int32_to_string(v.w + 40)" },
+            rename: &[("wr", "Other")],
+        },
+        PairCase {
+            family: "digits-in-names",
+            id: "T1[int32]_vs_T[1?]",
+            decls: "struct P1 { a: int32 }\nstruct P { a: int32 }\nstruct Pair[T] { p: T }\n",
+            a: Arg { ty: "Pair[P1]", value: "Pair { p: P1 { a: 1 } }", show: "\"p1\" + int32_to_string(v.p.a)" },
+            b: Arg { ty: "(Pair[P], int32)", value: "(Pair { p: P { a: 2 } }, 1)", show: "let (x, k) = v; \"p+1\" + int32_to_string(x.p.a * 10 + k)" },
+            rename: &[("P1", "Pone")],
+        },
+        PairCase {
+            family: "primitive-word-as-name",
+            id: "(int32x,y)_vs_user-int32-like",
+            decls: "struct int32_int32 { a: int32 }\nstruct Pair2[X, Y] { x: X, y: Y }\n",
+            a: Arg { ty: "Pair2[int32, int32]", value: "Pair2 { x: 1, y: 2 }", show: "\"app\" + int32_to_string(v.x * 10 + v.y)" },
+            b: Arg { ty: "(int32_int32, int32)", value: "(int32_int32 { a: 3 }, 4)", show: "let (x, k) = v; \"name\" + int32_to_string(x.a * 10 + k)" },
+            rename: &[("int32_int32", "IntInt")],
+        },
+    ]
+}
+
+/// programs where the designated generic has TWO parameters and the instance name joins them with `__`
+struct DuoCase {
+    family: &'static str,
+    id: &'static str,
+    decls: &'static str,
+    /// (X text, X value, Y text, Y value, show body over v: Duo[X, Y])
+    a: (&'static str, &'static str, &'static str, &'static str, &'static str),
+    b: (&'static str, &'static str, &'static str, &'static str, &'static str),
+    rename: &'static [(&'static str, &'static str)],
+}
+
+fn duo_cases() -> Vec<DuoCase> {
+    vec![
+        DuoCase {
+            family: "double-underscore-join",
+            id: "Duo[A__B,C]_vs_Duo[A,B__C]",
+            decls: "struct A__B { a: int32 }\nstruct C { a: int32 }\nstruct A { a: int32 }\nstruct B__C { a: int32 }\n",
+            a: ("A__B", "A__B { a: 1 }", "C", "C { a: 2 }", "\"L\" + int32_to_string(v.x.a * 10 + v.y.a)"),
+            b: ("A", "A { a: 3 }", "B__C", "B__C { a: 4 }", "\"R\" + int32_to_string(v.x.a * 10 + v.y.a)"),
+            rename: &[("A__B", "Ab"), ("B__C", "Bc")],
+        },
+        DuoCase {
+            family: "double-underscore-join",
+            id: "fn[T,U]:T=A__U_B,U=C_vs_T=A,U=B__U_C",
+            decls: "struct A__U_B { a: int32 }\nstruct C { a: int32 }\nstruct A { a: int32 }\nstruct B__U_C { a: int32 }\n",
+            a: ("A__U_B", "A__U_B { a: 1 }", "C", "C { a: 2 }", "\"L\" + int32_to_string(v.x.a * 10 + v.y.a)"),
+            b: ("A", "A { a: 3 }", "B__U_C", "B__U_C { a: 4 }", "\"R\" + int32_to_string(v.x.a * 10 + v.y.a)"),
+            rename: &[("A__U_B", "Aub"), ("B__U_C", "Buc")],
+        },
+        DuoCase {
+            family: "two-arguments-regrouped",
+            id: "Duo[(i,i),i]_vs_Duo[i,(i,i)]",
+            decls: "",
+            a: ("(int32, int32)", "(1, 2)", "int32", "3", "let (a, b) = v.x; \"L\" + int32_to_string(a * 100 + b * 10 + v.y)"),
+            b: ("int32", "4", "(int32, int32)", "(5, 6)", "let (b, c) = v.y; \"R\" + int32_to_string(v.x * 100 + b * 10 + c)"),
+            rename: &[],
+        },
+        DuoCase {
+            family: "two-arguments-regrouped",
+            id: "Duo[Duo[i,i],i]_vs_Duo[i,Duo[i,i]]",
+            decls: "",
+            a: ("Duo[int32, int32]", "Duo { x: 1, y: 2 }", "int32", "3", "\"L\" + int32_to_string(v.x.x * 100 + v.x.y * 10 + v.y)"),
+            b: ("int32", "4", "Duo[int32, int32]", "Duo { x: 5, y: 6 }", "\"R\" + int32_to_string(v.x * 100 + v.y.x * 10 + v.y.y)"),
+            rename: &[],
+        },
+        DuoCase {
+            family: "generic-application-vs-underscore-name",
+            id: "Duo[Pair[i],i]_vs_Duo[Pair_int32,i]",
+            decls: "struct Pair[T] { p: T }\nstruct Pair_int32 { q: int32 }\n",
+            a: ("Pair[int32]", "Pair { p: 1 }", "int32", "2", "\"app\" + int32_to_string(v.x.p * 10 + v.y)"),
+            b: ("Pair_int32", "Pair_int32 { q: 3 }", "int32", "4", "\"name\" + int32_to_string(v.x.q * 10 + v.y)"),
+            rename: &[("Pair_int32", "PairI")],
+        },
+    ]
+}
+
+fn rename_idents(src: &str, map: &[(&str, &str)]) -> String {
+    // whole-identifier replacement
+    let mut out = String::new();
+    let cs: Vec<char> = src.chars().collect();
+    let mut i = 0;
+    while i < cs.len() {
+        if cs[i].is_ascii_alphabetic() || cs[i] == '_' {
+            let mut j = i;
+            while j < cs.len() && (cs[j].is_ascii_alphanumeric() || cs[j] == '_') {
+                j += 1;
+            }
+            let w: String = cs[i..j].iter().collect();
+            match map.iter().find(|(f, _)| *f == w) {
+                Some((_, t)) => out.push_str(t),
+                None => out.push_str(&w),
+            }
+            i = j;
+        } else {
+            out.push(cs[i]);
+            i += 1;
+        }
+    }
+    out
+}
+
+fn pair_program(c: &PairCase) -> String {
+    format!(
+        r#"{decls}struct Box[T] {{ value: T }}
+enum Opt[T] {{ Som(T), Non }}
+fn keep[T](x: T) -> Box[T] {{ Box {{ value: x }} }}
+fn first[T](x: T, y: T) -> T {{ x }}
+fn show_a(v: {ta}) -> string {{ {sa} }}
+fn show_b(v: {tb}) -> string {{ {sb} }}
+fn main() -> unit {{
+  let a: {ta} = {va};
+  let b: {tb} = {vb};
+  let ba = keep(a);
+  let bb = keep(b);
+  let fa = first(a, a);
+  let fb = first(b, b);
+  let oa = Opt::Som(fa);
+  let ob = Opt::Som(fb);
+  let na: Opt[{ta}] = Opt::Non;
+  let _ = string_println("A " + show_a(ba.value));
+  let _ = string_println("B " + show_b(bb.value));
+  let _ = match oa {{ Opt::Som(v) => string_println("oa " + show_a(v)), Opt::Non => string_println("oa none"), }};
+  let _ = match na {{ Opt::Som(v) => string_println("na " + show_a(v)), Opt::Non => string_println("na none"), }};
+  match ob {{ Opt::Som(v) => string_println("ob " + show_b(v)), Opt::Non => string_println("ob none"), }}
+}}
+"#,
+        decls = c.decls,
+        ta = c.a.ty,
+        tb = c.b.ty,
+        va = c.a.value,
+        vb = c.b.value,
+        sa = c.a.show,
+        sb = c.b.show
+    )
+}
+
+fn duo_program(c: &DuoCase) -> String {
+    format!(
+        r#"{decls}struct Duo[X, Y] {{ x: X, y: Y }}
+enum Alt[X, Y] {{ Lft(X), Rgt(Y) }}
+fn duo[T, U](t: T, u: U) -> Duo[T, U] {{ Duo {{ x: t, y: u }} }}
+fn show_a(v: Duo[{xa}, {ya}]) -> string {{ {sa} }}
+fn show_b(v: Duo[{xb}, {yb}]) -> string {{ {sb} }}
+fn main() -> unit {{
+  let p: Duo[{xa}, {ya}] = duo({vxa}, {vya});
+  let q: Duo[{xb}, {yb}] = duo({vxb}, {vyb});
+  let la: Alt[{xa}, {ya}] = Alt::Lft(p.x);
+  let lb: Alt[{xb}, {yb}] = Alt::Rgt(q.y);
+  let _ = string_println("A " + show_a(p));
+  let _ = string_println("B " + show_b(q));
+  let _ = match la {{ Alt::Lft(_) => string_println("la left"), Alt::Rgt(_) => string_println("la right"), }};
+  match lb {{ Alt::Lft(_) => string_println("lb left"), Alt::Rgt(_) => string_println("lb right"), }}
+}}
+"#,
+        decls = c.decls,
+        xa = c.a.0,
+        vxa = c.a.1,
+        ya = c.a.2,
+        vya = c.a.3,
+        sa = c.a.4,
+        xb = c.b.0,
+        vxb = c.b.1,
+        yb = c.b.2,
+        vyb = c.b.3,
+        sb = c.b.4
+    )
+}
+
+fn emit_instance_case(id: &str, family: &str, variant: &str, bases: &[&str], fns: &[&str], src: &str, dir: &std::path::Path, out: &mut String) {
+    match util::compile_text(dir, src) {
+        Outcome::Ok(c) => {
+            // the REAL instance tables: names of the monomorphic copies of each designated base
+            let mut rows = Vec::new();
+            for b in bases {
+                let pre = format!("{}__", b);
+                let mut names: Vec<String> = c
+                    .monoenv
+                    .mono_enums
+                    .keys()
+                    .map(|k| k.0.clone())
+                    .chain(c.monoenv.mono_structs.keys().map(|k| k.0.clone()))
+                    .filter(|n| n.starts_with(&pre))
+                    .collect();
+                names.sort();
+                names.dedup();
+                rows.push(tagged("type", vec![a(*b), l(names.iter().map(a).collect())]));
+            }
+            for f in fns {
+                let pre = format!("{}__", f);
+                let names: Vec<String> = c.mono.toplevels.iter().map(|m| m.name.clone()).filter(|n| n.starts_with(&pre)).collect();
+                rows.push(tagged("fn", vec![a(*f), l(names.iter().map(a).collect())]));
+            }
+            // Go level: declared names of instance types / functions
+            let rep = goscope::check(&c.go, relied());
+            let fails: Vec<S> = rep.failures.iter().map(|f| l(vec![a(f.kind), a(&f.name)])).collect();
+            let _ = writeln!(out, "{}\tEXPECT\tnone\t", id);
+            let _ = writeln!(out, "{}\tSRC\t{}", id, esc_line(src));
+            let _ = writeln!(out, "{}\tINST\t{}\t{}\t{}\t{}", id, family, variant, l(rows).to_text(), l(fails).to_text());
+            let impls = crate::c01::impls_table(&c.genv);
+            let _ = writeln!(out, "{}\tSTAGE\tcore\t{}", id, crate::c01::prog(crate::dump::core_file(&c.core), &impls).to_text());
+            let _ = writeln!(out, "{}\tSTAGE\tmono\t{}", id, crate::c01::prog(crate::dump::mono_file(&c.mono), &impls).to_text());
+            let _ = writeln!(out, "{}\tSTAGE\tgo\t{}", id, crate::godump::gfile(&c.go).to_text());
+        }
+        Outcome::Err(stage, msgs) => {
+            let _ = writeln!(out, "{}\tINST\t{}\t{}\t()\t()", id, family, variant);
+            let _ = writeln!(out, "{}\tREJECT\t{}\t{}\t{}", id, stage, esc_line(&msgs.join(" | ")), esc_line(src));
+        }
+        Outcome::Panic(m) => {
+            let _ = writeln!(out, "{}\tINST\t{}\t{}\t()\t()", id, family, variant);
+            let _ = writeln!(out, "{}\tPANIC\t{}\t{}", id, esc_line(&m), esc_line(src));
+        }
+    }
+}
+
+pub fn main_inst(args: &util::Args) {
+    util::quiet_panics();
+    let _ = std::fs::create_dir_all(&args.out);
+    let rel: Vec<String> = args
+        .rest
+        .iter()
+        .position(|x| x == "--relied")
+        .and_then(|i| args.rest.get(i + 1))
+        .map(|s| s.split(',').map(|x| x.to_string()).collect())
+        .unwrap_or_else(|| vec!["any".to_string()]);
+    let _ = RELIED.set(rel);
+    let dir = util::scratch_dir("c19inst");
+    let mut out = String::new();
+    let mut n = 0;
+    for c in pair_cases() {
+        let src = pair_program(&c);
+        let id = format!("inst/{}/{}", c.family, c.id);
+        emit_instance_case(&format!("{}/orig", id), c.family, "orig", &["Box", "Opt"], &["keep", "first"], &src, &dir, &mut out);
+        n += 1;
+        if !c.rename.is_empty() {
+            let r = rename_idents(&src, c.rename);
+            emit_instance_case(&format!("{}/renamed", id), c.family, "renamed", &["Box", "Opt"], &["keep", "first"], &r, &dir, &mut out);
+            n += 1;
+        }
+        // the same pair in the other order: which instance is created last must not matter
+        let swapped = PairCase { family: c.family, id: c.id, decls: c.decls, a: Arg { ..c.b }, b: Arg { ..c.a }, rename: c.rename };
+        emit_instance_case(&format!("{}/swapped", id), c.family, "swapped", &["Box", "Opt"], &["keep", "first"], &pair_program(&swapped), &dir, &mut out);
+        n += 1;
+    }
+    for c in duo_cases() {
+        let src = duo_program(&c);
+        let id = format!("inst/{}/{}", c.family, c.id);
+        emit_instance_case(&format!("{}/orig", id), c.family, "orig", &["Duo", "Alt"], &["duo"], &src, &dir, &mut out);
+        n += 1;
+        if !c.rename.is_empty() {
+            let r = rename_idents(&src, c.rename);
+            emit_instance_case(&format!("{}/renamed", id), c.family, "renamed", &["Duo", "Alt"], &["duo"], &r, &dir, &mut out);
+            n += 1;
+        }
+    }
+    let _ = std::fs::remove_dir_all(&dir);
+    let _ = writeln!(out, "#FEATS\tpair_cases={} duo_cases={} programs={}", pair_cases().len(), duo_cases().len(), n);
+    std::fs::write(args.out.join("c19inst.cases.tsv"), out).expect("write");
+    println!("c19inst programs={}", n);
+}
+
 pub fn main(args: &util::Args) {
     util::quiet_panics();
     let _ = std::fs::create_dir_all(&args.out);
